@@ -1472,6 +1472,9 @@ class TTNS(TTNBase):
             order = self.basis.basis_list
         indices_up = []
         for basis in order:
+            if basis.nbas == 1:
+                # axes of size one (e.g. the virtual basis sets of MCTDH-style trees) are squeezed in `to_contract_args`
+                continue
             indices_up.append(("down", str(basis.dofs)))
         output_indices = indices_up
         args.append(output_indices)
